@@ -9,14 +9,22 @@
 (* TLC shows to produce exactly these outcomes under every interleaving.        *)
 (*                                                                              *)
 (* A scenario is a record                                                       *)
-(*   tree    : sequence of nodes [p |-> path, k |-> kind, data |-> bytes]       *)
+(*   tree    : sequence of nodes [p |-> path, k |-> kind, data |-> bytes,       *)
+(*                                tr |-> transport]                             *)
 (*             path = sequence of components, component = byte sequence         *)
 (*             kind = "dir" | "file" | "gz" | "truncgz" | "crcgz" | "badgz"     *)
 (*             data = the (decompressed) content                                *)
+(*             tr   = "reg"  a regular file: can be rewound, reports its size   *)
+(*                    "pipe" a FIFO / inherited pipe: cannot be rewound and     *)
+(*                           reports size 0 whatever it will deliver            *)
+(*             a path whose first component is empty is ABSOLUTE: an input that *)
+(*             exists outside the directory tree (/dev/stdin, /dev/fd/3 = a     *)
+(*             process substitution); globs and walks never produce it          *)
 (*   stdin   : [k |-> "data" | "dir", data |-> bytes]                           *)
 (*   args    : sequence of arguments, each a path whose components may contain  *)
 (*             the glob characters * and ?                                      *)
 (*   rec, gz : BOOLEAN (-R, -z);  readers : Nat;  cmd : "filter" | "histo"      *)
+(*   nofile  : the descriptor limit of the process (RLIMIT_NOFILE), 0 = default *)
 EXTENDS Bytes
 
 Slash == 47
@@ -29,6 +37,8 @@ DashArg   == << <<45>> >>                               \* the argument "-"
 GzKinds   == {"gz", "truncgz", "crcgz", "badgz"}
 FileKinds == {"file"} \cup GzKinds
 Kinds     == {"dir"} \cup FileKinds
+Transports == {"reg", "pipe"}
+IsAbs(p)  == p # <<>> /\ p[1] = <<>>
 
 PathStr(p) == JoinSeq(p, <<Slash>>)
 
@@ -46,13 +56,15 @@ IsPathPrefix(r, p) == Len(r) <= Len(p) /\ SubSeq(p, 1, Len(r)) = r
 TreeOK(tree) ==
   /\ \A i, j \in DOMAIN tree : tree[i].p = tree[j].p => i = j
   /\ \A i \in DOMAIN tree :
-       /\ tree[i].k \in Kinds
+       /\ tree[i].k \in Kinds /\ tree[i].tr \in Transports
        /\ tree[i].p # <<>>
        /\ \A c \in DOMAIN tree[i].p :
-            /\ tree[i].p[c] # <<>>
+            /\ tree[i].p[c] # <<>> \/ (c = 1 /\ Len(tree[i].p) > 1)
             /\ \A x \in DOMAIN tree[i].p[c] : tree[i].p[c][x] \notin {Slash, Star, Quest, 0, 91, 92}
-       /\ \A n \in 1..(Len(tree[i].p) - 1) : KindAt(tree, SubSeq(tree[i].p, 1, n)) = "dir"
+       /\ IF IsAbs(tree[i].p) THEN tree[i].k # "dir"
+          ELSE \A n \in 1..(Len(tree[i].p) - 1) : KindAt(tree, SubSeq(tree[i].p, 1, n)) = "dir"
        /\ tree[i].k \in {"dir", "badgz"} => tree[i].data = <<>>
+       /\ tree[i].k = "dir" => tree[i].tr = "reg"
 
 \* ------------------------------------------- glob matching (filepath.Match on * ? and literals)
 RECURSIVE Match(_, _)
@@ -78,8 +90,10 @@ SortPaths(S) == SetToSortSeq(S, PLess)
 WalkSet(tree, root) ==
   {n.p : n \in {m \in Nodes(tree) : m.k # "dir" /\ Len(m.p) > Len(root) /\ IsPathPrefix(root, m.p)}}
 \* every existing path (file OR directory) matching the pattern component by component
+\* (a relative pattern never produces an absolute path: * does not match the root)
 GlobSet(tree, pat) ==
-  {n.p : n \in {m \in Nodes(tree) : Len(m.p) = Len(pat) /\ \A i \in 1..Len(pat) : Match(pat[i], m.p[i])}}
+  {n.p : n \in {m \in Nodes(tree) : Len(m.p) = Len(pat) /\ IsAbs(m.p) = IsAbs(pat)
+                                     /\ \A i \in 1..Len(pat) : Match(pat[i], m.p[i])}}
 
 \* one argument -> the sequence of paths it mentions
 ExpandArg(tree, a, rec) ==
@@ -118,6 +132,24 @@ ReadOutcome(sc, m) ==
          [] k = "crcgz"   -> [full |-> d, mode |-> "exact", err |-> 1]      \* fails after the last byte
          [] k = "truncgz" -> [full |-> d, mode |-> "prefix", err |-> 1]     \* fails somewhere inside
          [] k = "badgz"   -> [full |-> <<>>, mode |-> "exact", err |-> 1]   \* fails at the first byte
+
+\* ReadOutcome does not look at the transport: what an input delivers, and whether it counts as a
+\* read error, is the same for a regular file, a FIFO, /dev/stdin and a process substitution.
+
+\* the bytes the operating system hands out for a node when nothing decodes them (abstract image of
+\* the compressed file: it starts with the gzip magic number and is never equal to the content)
+GzMagic == <<31, 139>>
+Image(k, d) == IF k \in GzKinds THEN GzMagic \o <<8>> \o d ELSE d
+HasMagic(b) == Len(b) >= 2 /\ SubSeq(b, 1, 2) = GzMagic
+\* the size the operating system reports before anything was read
+ReportedSize(k, d, tr) == IF tr = "pipe" THEN 0 ELSE Len(Image(k, d))
+
+\* the resource --readers bounds: inputs are opened under the reader slot, so never more than
+\* `readers` of the mentioned inputs are open at the same time - however many are mentioned
+MaxOpen(sc) == sc.readers
+\* descriptors the process may need besides its inputs (standard streams, runtime poller, the
+\* directory that is being listed): with nofile >= readers + FdReserve no readable input may fail
+FdReserve == 16
 
 \* ------------------------------------------------------------------- lines
 DropOneCR(s) == IF s # <<>> /\ s[Len(s)] = CR THEN SubSeq(s, 1, Len(s) - 1) ELSE s
@@ -211,15 +243,30 @@ OutcomeFull(sc) ==
 
 \* ------------------------------------------------------------------- domain of the specification
 NoBadBytes(d) == \A i \in DOMAIN d : d[i] \in 0..255 /\ d[i] # CR
-ArgOK(a) == a # <<>> /\ \A c \in DOMAIN a : a[c] # <<>> /\ \A x \in DOMAIN a[c] : a[c][x] \notin {Slash, 0, 91, 92}
+ArgOK(a) == a # <<>> /\ \A c \in DOMAIN a : (a[c] # <<>> \/ (c = 1 /\ Len(a) > 1))
+                                              /\ \A x \in DOMAIN a[c] : a[c][x] \notin {Slash, 0, 91, 92}
+PipePaths(tree) == {tree[i].p : i \in {j \in DOMAIN tree : tree[j].tr = "pipe"}}
 InDomain(sc) ==
   /\ TreeOK(sc.tree)
   /\ \A i \in DOMAIN sc.tree : NoBadBytes(sc.tree[i].data)
   /\ NoBadBytes(sc.stdin.data)
   /\ sc.cmd \in {"filter", "histo", "lib"} /\ sc.readers >= 1
+  /\ sc.nofile = 0 \/ sc.nofile >= sc.readers + FdReserve
   /\ IF UsesStdin(sc.args)
-     THEN Len(sc.args) <= 1 /\ ~sc.gz          \* "-" alone or nothing; -z with stdin is refused
+     THEN /\ Len(sc.args) <= 1 /\ ~sc.gz          \* "-" alone or nothing; -z with stdin is refused
+          /\ \A i \in DOMAIN sc.tree : ~IsAbs(sc.tree[i].p)
      ELSE /\ \A i \in DOMAIN sc.args : ArgOK(sc.args[i]) /\ sc.args[i] # DashArg
+          \* an absolute argument names an existing external input, literally
+          /\ \A i \in DOMAIN sc.args : IsAbs(sc.args[i]) =>
+                /\ Exists(sc.tree, sc.args[i])
+                /\ \A c \in DOMAIN sc.args[i] : \A x \in DOMAIN sc.args[i][c] : sc.args[i][c][x] \notin {Star, Quest}
+          \* a pipe hands its bytes out once: it is mentioned at most once, and the property speaks of
+          \* REGULAR files below a -R directory only
+          /\ LET ms == Mentions(sc) IN
+             \A p \in PipePaths(sc.tree) :
+               /\ Cardinality({i \in DOMAIN ms : ms[i].p = p}) <= 1
+               /\ sc.rec => \A i \in DOMAIN sc.args :
+                              ~(KindAt(sc.tree, sc.args[i]) = "dir" /\ IsPathPrefix(sc.args[i], p))
           \* without -z nothing is demanded about how compressed files look
           /\ ~sc.gz => \A i \in DOMAIN Mentions(sc) : KindAt(sc.tree, Mentions(sc)[i].p) \notin GzKinds
 =============================================================================
